@@ -9,7 +9,7 @@ CLAIMS = {
              "inspection of token text for shell syntax is controlled by a test of the same token's quote tag; execve's argv is a "
              "lossless map of the token texts; the tokenizer keeps a trace (tag or backslash) of every escaped character a later "
              "pass acts on (explored per character class over its loop); the tokenizer / list splitter never use a character "
-             "counter as a byte offset and split only at ASCII blanks. Necessary conditions of the property; equality of argv bytes for arbitrary input is not "
+             "counter as a byte offset and split only at ASCII blanks; the tokenizer's `is_complete` flag is read by the prompt only. Necessary conditions of the property; equality of argv bytes for arbitrary input is not "
              "decided.",
         note="trusted: rustc MIR + callee resolution; inspector class table in sa/etag.py; later-pass trigger set listed in sa/rules/c01.py",
         ref="4/C01"),
@@ -38,7 +38,9 @@ CLAIMS = {
              "forward iteration (last redirection wins, for output and input), every dup2 in the Child region, open failures reach "
              "a non-zero exit before exec / are not dropped, here-string feeding, that the child touches no released pipe "
              "number while the here-string pipe is live, that no word with `>` is dropped silently by the spelling recogniser and "
-             "no recorded redirection is removed or skipped afterwards. Redirection spelling regexes and file contents are not decided.",
+             "no recorded redirection is removed or skipped afterwards, the opener sets no raw open(2) flags, `>` right after a closing "
+             "quote ends the quoted word (explored over the tokenizer's loop), and which spellings of `<` are recognised (open "
+             "finding). Redirection spelling regexes and file contents are not decided.",
         note="trusted: MIR, std::fs::OpenOptions semantics",
         ref="4/C04"),
     "C05": dict(
@@ -57,8 +59,8 @@ CLAIMS = {
                   "signal-mask typestate over the call graph, loop-bound rule",
         text="Decides structural necessary conditions of job tracking: no order-dependent search or order-breaking mutation of "
              "Job.pids, the four child-event kinds parked in matching maps by both reapers and all drained, event maps touched "
-             "only with SIGCHLD blocked, smallest-free-id allocation, the all-stopped predicate, gid lookups not bounded by "
-             "jobs.len(). Interleaving semantics are not decided.",
+             "only with SIGCHLD blocked, smallest-free-id allocation, the all-stopped predicate (every verdict site), gid lookups not bounded by "
+             "jobs.len(), event maps changed one pid at a time. Interleaving semantics are not decided.",
         note="trusted: MIR, nix WaitStatus; model-level interleavings out of reach of path rules",
         ref="4/C06"),
     "C07": dict(
@@ -112,7 +114,7 @@ CLAIMS = {
              "descending order on the vector as scanned, a glob never yields an empty list, the two counting loops of brace "
              "ranges, HOME read at expansion time and not as a template, the `.`/`..` filter, ranges keep the text around the "
              "braces, a group's closing brace is consumed once, only `~` / `~/` are rewritten (pattern evaluated as data), a "
-             "`./` prefix is kept, every pass sees the previous passes' words. Produced word lists (cartesian order, glob "
+             "`./` prefix is kept, every pass sees the previous passes' words, hidden entries judged by the last path component. Produced word lists (cartesian order, glob "
              "matches) are not decided.",
         note="trusted: MIR; value-level results out of reach",
         ref="4/C12"),
@@ -130,7 +132,8 @@ CLAIMS = {
         text="Decides that the top rule is anchored at both ends, each walker's rule set covers the grammar's child sets, "
              "break/continue/first-true-branch propagation, keywords cannot match empty, leading indentation, agreement of the "
              "grammar with a reference block-structure recogniser on all keyword sequences up to a bound, for-variable binding and "
-             "word splitting, the condition verdict by the last status, and that no text runs unparsed.",
+             "word splitting, the condition verdict by the last status, no text runs unparsed, and break / continue flags are raised only by the words "
+             "themselves.",
         note="trusted: pest semantics, MIR; equivalence of the interpreter's effects with a reference interpreter not decided",
         ref="4/C14"),
     "C15": dict(
@@ -146,7 +149,8 @@ CLAIMS = {
                   "side computed by exploring its character loop), index-space dataflow",
         text="Decides that all entry points reach execution only through run_command_line and that the script path's token "
              "renderer re-escapes every character the tokenizer treats specially, outside and inside double quotes (necessary for "
-             "idempotent re-tokenizing).",
+             "idempotent re-tokenizing); list operators, `||` without blanks and `>` right after a closing quote are tokenized as "
+             "operators (explored over the character loop); tokenizer and renderer agree on backslashes of untagged words.",
         note="trusted: MIR; special-character table S justified in DESIGN 4/C16",
         ref="4/C16"),
     "C17": dict(
@@ -154,7 +158,7 @@ CLAIMS = {
                   "for name shapes, edit-list and overwrite rules",
         text="Decides that alias lookup happens only at head-of-stage positions, the flag is cleared on every path that consumes "
              "a word, replaced tokens are not looked up again, unalias removes by exact key, redefinition overwrites, the value "
-             "replaces the word it was looked up for and enters the token list only through the tokenizer, the listing chooses its quote character by the value, and which accepted name shapes the tokenizer treats as assignment heads.",
+             "replaces the word it was looked up for and enters the token list only through the tokenizer, the listing chooses its quote character by the value, a replacement is recorded under exactly {head position, is an alias}, and which accepted name shapes the tokenizer treats as assignment heads.",
         note="trusted: MIR",
         ref="4/C17"),
     "C18": dict(
